@@ -74,6 +74,30 @@ def s_obligations(tier, rnd):
             obs.append(Ob(f"raw.dep.{mt}", build(params, body, setup=SETUP + f"CLS = {cls_expr(mt)}\n"),
                           f"{mt}: unit-dependent controllers under every unit: stored value is v - min (min < 0) or v and converts back to v",
                           group="raw", shape=f"{mt}: {len(deps)} unit-dependent controllers x every unit", symbolic="one value per (controller, unit) over that unit's range", timeout=240))
+    # unit-dependent ranges after a LOAD (the unit arrives as a stored value): the range the library resolves, and hence the
+    # pattern-column encoding of the end points, must be the unit's
+    for mt, cls in MODULE_CLASSES.items():
+        deps = [(n, c) for n, c in cls.controllers.items() if ctl_kind(c) == "dep"]
+        for n, c in deps:
+            t = c.value_type
+            params, parts = [], []
+            for unit, r in t.range_map.items():
+                pn = f"v_{unit.name}"
+                params.append(R(pn, r.min, r.max))
+                parts.append(f"""
+    a = CLS()
+    a.{t.ctl_name} = CLS.controllers[{t.ctl_name!r}].value_type({unit.value})
+    a.{n} = {pn}
+    for b in (rt(Synth(a)).module, a.clone()):
+        rr = CLS.controllers[{n!r}].instance_value_type(b)
+        if (rr.min, rr.max) != ({r.min}, {r.max}) or b.{n} != {pn} or b.{t.ctl_name}.value != {unit.value}:
+            return False
+        if CLS.controllers[{n!r}].pattern_value(b, {r.min}) != 0 or CLS.controllers[{n!r}].pattern_value(b, {r.max}) != 0x8000:
+            return False""")
+            body = "".join(parts)[1:] + "\n    return True\n"
+            obs.append(Ob(f"dep.loaded.{mt}.{n}", build(params, body, setup=SETUP + f"CLS = {cls_expr(mt)}\n"),
+                          f"{mt}.{n} after save/load and after clone(), under every unit: the resolved range is the unit's and its end points encode to 0x0000 / 0x8000",
+                          group="raw", shape=f"{mt}: every member of {t.ctl_name}", symbolic="the controller value under each unit", timeout=300))
     # generic: any range that could ever be declared
     for kind, off in (("Range", True), ("CompactRange", True), ("WarnOnlyRange", True), ("NoOffsetRange", False)):
         exp = "(v - mn if mn < 0 else v)" if off else "v"
